@@ -15,8 +15,9 @@ use rml_rtmp::time::RtmpTimestamp;
 use serde::{Deserialize, Serialize};
 use std::collections::{BTreeMap, BTreeSet};
 
-pub const APPS: &[&str] = &["live", "app", "vod/inst"];
-pub const KEYS: &[&str] = &["key1", "abc", "stream?x=1"];
+// one of the names is not ASCII (the server echoes names in its status descriptions)
+pub const APPS: &[&str] = &["live", "caf\u{e9}", "vod/inst"];
+pub const KEYS: &[&str] = &["key1", "\u{43a}\u{43b}\u{44e}\u{447}-\u{30e9}\u{30a4}\u{30d6}", "stream?x=1"];
 
 /// Stream key for a key index: 0..2 the short keys; 3 a key of 65500 bytes — a legal AMF0 string,
 /// but the status description the server builds from it ("Successfully started … on stream key
@@ -130,6 +131,14 @@ impl Exec {
     pub fn new(chunk_size: u32) -> Result<Exec, String> {
         let mut cfg = ServerSessionConfig::new();
         cfg.chunk_size = chunk_size.clamp(1, 0x7FFF_FFFF);
+        // the other configuration values vary with the chunk size (the case stays a function of its
+        // data): the onBWDone flag, the announced window / bandwidth, a non-ASCII version string
+        cfg.send_on_bw_done_message_on_start = chunk_size % 2 == 0;
+        cfg.window_ack_size = [2_500_000u32, 1, 0xFFFF_FFFF, 5000][(chunk_size / 2 % 4) as usize];
+        cfg.peer_bandwidth = [2_500_000u32, 0, 0xFFFF_FFFF, 128][(chunk_size / 8 % 4) as usize];
+        if chunk_size / 32 % 3 == 1 {
+            cfg.fms_version = "FMS/3,0,1,123 \u{2014} \u{441}\u{435}\u{440}\u{432}\u{435}\u{440}".to_string();
+        }
         let (sess, init) = ServerSession::new(cfg).map_err(|e| format!("ServerSession::new failed: {:?}", e))?;
         let mut e = Exec { sess, outdec: OutDec::new(), record: Vec::new(), tag: Tag { call: usize::MAX, ..Tag::default() } };
         let mut o = OpObs::default();
@@ -340,7 +349,14 @@ struct Judge<'a> {
 }
 
 pub fn eval(case: &Case) -> Verdict {
-    eval_with(case, &Clock::default(), &mut Vec::new())
+    eval_with(case, &own_clock(case.ops.len()), &mut Vec::new())
+}
+
+/// The session's age in this property's own sub-checks: a function of the history length, so that
+/// most histories run on a session that is NOT brand new (uptime 0 makes "the session's clock" and
+/// "zero" coincide) while the case stays a pure function of its data.  C18 owns long uptimes.
+pub fn own_clock(n_ops: usize) -> Clock {
+    Clock { age0: [0u64, 50, 1234, 70_000, 16_777_300][n_ops % 5], jumps: vec![] }
 }
 
 /// Runs and judges a history; `clock` ages the session, `sink` receives every packet returned.
